@@ -60,7 +60,6 @@ PROPS = {
     },
     "C18": {
         "modules": ["Ark.Props.C18"],
-        "claimed": False,
         "rule": "one op line per (type, value) serialization or (type, byte string) deserialization; distinct = distinct op line; non-trivial = non-empty payload",
         "exhaustive": [],
         "partial": ["the actual abort on allocation failure is a runtime behaviour observed only by the harness (child process under a memory limit); the model records allocation events and the theorems bound them"],
